@@ -10,6 +10,8 @@ configurations (constants overridden per tier below):
                 variable records unbounded history)
   SP_self.cfg   like SP_all plus the driver's OWN handle (co_await self()) at every position: AddSelf /
                 ConstructSelf, co_await / clear / destruction / pop of objects holding it, Yield
+                (SP_self and SP_typed also contain coro_queue::create_suspend_point(fn) - fn readies the handles of
+                one object, then returns or throws - and resume.h parallel_resume())
   SP_typed.cfg  typed and untyped objects mixed, three slots, histories bounded by MaxSteps, reads of the
                 attached value in every order; replayed twice: payload int and a move-tracking payload
   SP_grow.cfg   two objects, many handles, operations biased to the capacity boundaries
@@ -27,6 +29,7 @@ PROJ = ["blocks", "burst", "dalloc", "done", "dres", "mode", "nextH", "queue", "
 ALL_OPS = ["ConstructEmpty", "ConstructH", "MoveConstruct", "AddHandle", "AddFill", "MergeShl", "MoveAssign",
            "Pop", "Clear", "Destroy", "CoAwait", "Pause"]
 SELF_OPS = ["ConstructSelf", "AddSelf", "Yield"]
+HELPERS = ["ParResume", "CreateSP"]     # resume.h parallel_resume, coro_queue::create_suspend_point
 KEY_SELF_LAST = "await_own_handle_last"     # known_findings.jsonl: fixed in /repo 283e427
 
 
@@ -249,9 +252,9 @@ def run(ctx):
     jobs = [
         # (cfg, tag, constants, must_take, extra_random, payload)
         ("SP_all.cfg", "all", {"MaxObj": 2, "MaxH": 5}, full, 100 if q else 1000, "int"),
-        ("SP_self.cfg", "self", {"MaxH": 3 if q else 4}, full + SELF_OPS, 100 if q else 1000, "int"),
-        ("SP_typed.cfg", "typed", {"MaxSteps": 4}, full + ["Read"], 50 if q else 500, "int"),
-        ("SP_typed.cfg", "typedT", {"MaxSteps": 4 if q else 5}, full + ["Read"], 50 if q else 500, "tracked"),
+        ("SP_self.cfg", "self", {"MaxH": 3 if q else 4}, full + SELF_OPS + HELPERS, 100 if q else 1000, "int"),
+        ("SP_typed.cfg", "typed", {"MaxSteps": 4}, full + ["Read"] + HELPERS, 50 if q else 500, "int"),
+        ("SP_typed.cfg", "typedT", {"MaxSteps": 4 if q else 5}, full + ["Read"] + HELPERS, 50 if q else 500, "tracked"),
         ("SP_grow.cfg", "grow", {"MaxSteps": 6 if q else 7}, grow + ["MoveAssign"], 100 if q else 1000, "int"),
     ]
     if not q:
@@ -295,7 +298,10 @@ def run(ctx):
                "the caller): clear()/destruction of a suspend point holding the own handle outside coroutine mode; "
                "co_await of a non-empty suspend point, pause() or self() while the own handle waits in the ready queue")
     ctx.assume("a handle returned by pop() is resumed by the caller at once (its own handle is dropped); operator new[] does not fail")
-    ctx.assume("single thread: suspend_point is not a shared object (it is a return value / local)")
+    ctx.assume("single thread: suspend_point is not a shared object (it is a return value / local); the detached thread "
+               "created by parallel_resume() is waited for before the state is compared (no interleaving with the caller)")
+    ctx.assume("the function given to create_suspend_point readies coroutines by clear()ing or discarding ONE existing suspend "
+               "point (or none) and then returns or throws; it does not consume the ready queue")
     ctx.assume("payload types int and a move-tracking class (identity, moved-from flag); the attached value is observed "
                "through a probe of the member, reads only happen as operations of the history")
     ctx.assume("capacity doublings beyond 48->96 and more than 3 simultaneously live objects are not explored; "
